@@ -1636,11 +1636,17 @@ where
                     });
                 }
 
-                entry.size = new_entry_size;
-                let entry_ptr = EntryPtr::new(entry as *mut Entry<K, V>);
-                self.current_size += diff;
+                // Make room for the growth before accounting for it. The total
+                // then never exceeds the limit, not even temporarily, and the
+                // sum cannot overflow for sizes close to usize::MAX. The
+                // entry itself is the most recently used one and fits on its
+                // own, so it is never among the ejected entries.
+
+                let mut entry_ptr = EntryPtr::new(entry as *mut Entry<K, V>);
                 self.touch_ptr(entry_ptr);
-                self.eject_to_target(max_size);
+                self.eject_to_target(max_size - diff);
+                entry_ptr.get_mut().size = new_entry_size;
+                self.current_size += diff;
             }
             else {
                 // The operation was non-expanding; everything is ok.
